@@ -1,9 +1,10 @@
 // Replay dispatcher: the per-module interpreters live in private modules of the
 // crate, so they are reached through #[no_mangle] Rust-ABI symbols.
 extern "Rust" {
-    fn fi_verif_replay_mutex(name: &str, cfg: u8, p: u32, s: &mut common::ScriptSrc<'_>) -> bool;
+    fn fi_verif_replay_mutex(name: &str, cfg: u32, p: u32, s: &mut common::ScriptSrc<'_>) -> bool;
+    fn fi_verif_replay_sem(name: &str, cfg: u32, p: u32, s: &mut common::ScriptSrc<'_>) -> bool;
 }
 
-fn replay_dispatch(name: &str, cfg: u8, p: u32, s: &mut common::ScriptSrc<'_>) -> bool {
-    unsafe { fi_verif_replay_mutex(name, cfg, p, s) }
+fn replay_dispatch(name: &str, cfg: u32, p: u32, s: &mut common::ScriptSrc<'_>) -> bool {
+    unsafe { fi_verif_replay_mutex(name, cfg, p, s) || fi_verif_replay_sem(name, cfg, p, s) }
 }
